@@ -196,6 +196,7 @@ func checkC19(c *Ctx, r *Result, tier string) {
 	c19TrailingError(c, r)
 	c19PluginUnderRecover(c, r)
 	c19VariadicArity(c, r)
+	cPoolEscape(c, r, "R19g", map[string]bool{"stdlib": true, "interpreter": true})
 }
 
 // recoverCovers: fn registers, before any call, a deferred closure that recovers and assigns the named error result.
